@@ -35,7 +35,7 @@ var (
 	c05Origins = []string{"code", "oidc", "hyb-idt", "password", "device"}
 	c05Granted = []string{"a", "a offline", "a b.c offline", "a rt", "b.c offline_access", "ab.c offline"}
 	c05Params  = []string{"none", "scope-admin", "scope-wider", "audience-other", "scope-narrower"}
-	c05Edits   = []string{"none", "rm-a", "narrow-b", "rm-aud", "rm-refresh-grant", "rm-offline", "rm-ab", "rm-all-aud"}
+	c05Edits   = []string{"none", "rm-a", "narrow-b", "rm-aud", "rm-refresh-grant", "rm-offline", "rm-ab", "rm-all-aud", "aud-case-variant"}
 	c05RScopes = []string{"none", "default", "custom"}
 	c05Strats  = []string{"exact", "wildcard", "hierarchic"}
 )
@@ -215,6 +215,9 @@ func c05Run(c c05Case, res *WRes) {
 		cl.Scopes = append(cl.Scopes, "b.x")
 	case "rm-aud":
 		cl.Audience = []string{"https://other.example"}
+	case "aud-case-variant":
+		// the registration is re-pointed to an audience that differs from the granted one in the case of its path
+		cl.Audience = []string{"https://api.example/A"}
 	case "rm-all-aud":
 		// the registration no longer allows any audience at all
 		cl.Audience = []string{}
